@@ -15,15 +15,19 @@ import re
 from cexpr import strip_comments, strip_guarded, function_body, match_brace, parse_expr, Emitter, TranslateError
 
 
+UNDEFINED = ("_OPENMP", "TRACK_PARTICLE")
+
+
 def no_openmp(src):
-    """keep the branch of `#if(n)def _OPENMP` conditionals that is compiled WITHOUT OpenMP; other conditionals are kept as they are"""
+    """keep the branch of `#if(n)def _OPENMP` (and TRACK_PARTICLE) conditionals that is compiled with the macro UNDEFINED; other
+    conditionals are kept as they are"""
     out, stack = [], []          # stack of (kind, active) ; kind 'omp' or 'other'
     for line in src.split("\n"):
         s = line.strip()
         m = re.match(r"#\s*(ifdef|ifndef|if|else|elif|endif)\b(.*)", s)
         if m:
             d, rest = m.group(1), m.group(2).strip()
-            if d in ("ifdef", "ifndef") and rest.split()[:1] == ["_OPENMP"]:
+            if d in ("ifdef", "ifndef") and rest.split()[:1] and rest.split()[0] in UNDEFINED:
                 stack.append(["omp", d == "ifndef"])
                 continue
             if d in ("ifdef", "ifndef", "if"):
